@@ -273,6 +273,11 @@ class Machine:
             return [(base, init['bits'] // 8, float(init['v']) if init['v'] is not None else OPAQUE)]
         if k == 'n':
             return [(base, 8, 0)]
+        if k == 'g' and (init.get('fn') or init.get('alias')):
+            # a function address in a constant table (e.g. a template of the module's function table)
+            return [(base, 8, FnPtr(init['v'] if init.get('fn') else self.lib.aliases.get(init['v'], init['v'])))]
+        if k == 'ce' and init.get('op') in ('bitcast', 'addrspacecast') and init.get('ops'):
+            return self._init_elems(init['ops'][0], base)
         if k == 'cv':
             t = init['ty']
             out = []
